@@ -3,6 +3,7 @@ import ZnVerif.Ops.Sexp
 import ZnVerif.Ops.FloatNum
 import ZnVerif.Model.Interp
 import ZnVerif.Spec.Sem
+import ZnVerif.Generated.Members
 
 namespace ZnVerif.Ops.Run
 open ZnVerif ZnVerif.Ops ZnVerif.Model
@@ -66,19 +67,80 @@ def parseInput (spec : String) : Option (String × Cell Float) :=
 
 def fuelDefault : Nat := 4000
 
+/-- the libraries the harness registers (`stdLibs()`), from the regenerated table of library registrations: only their
+functions (`f`); a library that exports classes (the harness' own `@验证HTTP`) is outside the model -/
+def stdLibTable : LibTable :=
+  let names := (Generated.Members.libraries.map (·.1)).eraseDups
+  names.map fun l => (l, (Generated.Members.libraries.filter fun e => e.1 == l && e.2.1 == "f").map (·.2.2))
+
+def classLibs : List String :=
+  "@验证HTTP" :: ((Generated.Members.libraries.filter fun e => e.2.1 != "f").map (·.1))
+
+def importsClassLib (p : Program) : Bool :=
+  p.imports.any fun im => match im.name with | some n => classLibs.contains n | none => false
+
+def answer (r : Res Addr) (vm : VM Float) : String :=
+  let tr := traceField vm.out
+  match r with
+  | .ok a => "ok " ++ canon vm.heap a ++ " | " ++ tr
+  | .err e => "err rt " ++ toString (errCode e) ++ " " ++ locs vm ++ " | " ++ tr
+  | .panic => "panic"
+  | .fuel => "fuel"
+  | .unmodelled => "unmodelled"
+
+/-- a script (`LoadScript`): no file can be imported (error 60), the harness' libraries are registered -/
 def runAst (fuel : Nat) (sexp : String) (inputs : List String) : String :=
   match sxParse (sxTokens sexp) >>= sxProgram with
   | none => "bad-ast"
   | some prog =>
+    if importsClassLib prog then "unmodelled" else
     let ins := inputs.filterMap parseInput
-    let (r, vm) := runProgram fuel prog ins (initVM ())
-    let tr := traceField vm.out
-    match r with
-    | .ok a => "ok " ++ canon vm.heap a ++ " | " ++ tr
-    | .err e => "err rt " ++ toString (errCode e) ++ " " ++ locs vm ++ " | " ++ tr
-    | .panic => "panic"
-    | .fuel => "fuel"
-    | .unmodelled => "unmodelled"
+    let (r, vm) := runProgramWith [] stdLibTable fuel prog ins (initVM ())
+    answer r vm
+
+/-- directory part of a relative path (`filepath.Dir`), "" for a bare file name -/
+def dirOf (p : String) : String :=
+  match (p.splitOn "/").reverse with
+  | _ :: d :: ds => "/".intercalate (d :: ds).reverse
+  | _ => ""
+
+/-- `runfilesast <main-relpath-hex> <n> (<relpath-hex> <k> <k sexp tokens>)*n [inputs…]`: the trees of all files as the
+harness `ast` op dumps them (k = 0: the file does not compile), run as `LoadFile(main).Execute(inputs)` -/
+partial def takeFiles : Nat → List String → Option (List (String × Option Program) × List String)
+  | 0, rest => some ([], rest)
+  | n+1, path :: k :: rest =>
+    let kk := k.toNat!
+    let toks := rest.take kk
+    let prog := if kk == 0 then none else (sxParse (sxTokens (" ".intercalate toks)) >>= sxProgram)
+    match takeFiles n (rest.drop kk) with
+    | none => none
+    | some (fs, rest') => some ((hexToString path, prog) :: fs, rest')
+  | _, _ => none
+
+def runFilesAst (fuel : Nat) (args : List String) : String :=
+  match args with
+  | mainHex :: n :: rest =>
+    match takeFiles n.toNat! rest with
+    | none => "bad-args"
+    | some (fs, inputs) =>
+      let main := hexToString mainHex
+      match fs.lookup main with
+      | none => "bad-main"
+      | some none => "unmodelled"          -- a main file that does not compile: syntax errors are C05/C18's
+      | some (some prog) =>
+        if fs.any (fun f => f.2.isNone) then "unmodelled" else
+        let root := dirOf main
+        let pre := if root == "" then "" else root ++ "/"
+        -- paths below the main file's directory, relative to it (nothing else can be named by an import)
+        let table : FileTable := fs.filterMap fun f =>
+          match f.2 with
+          | some p => if f.1.startsWith pre then some ((f.1.drop pre.length).toString, p) else none
+          | none => none
+        if fs.any (fun f => match f.2 with | some p => importsClassLib p | none => false) then "unmodelled" else
+        let ins := inputs.filterMap parseInput
+        let (r, vm) := runProgramWith table stdLibTable fuel prog ins (initVM ())
+        answer r vm
+  | _ => "bad-args"
 
 partial def canonS (objs : Array (String × List (String × Spec.SVal Float))) (v : Spec.SVal Float) : String :=
   match v with
@@ -121,6 +183,7 @@ def handle (op : String) (args : List String) : Option String :=
   | "runast", n :: rest =>
     let k := n.toNat!
     some (runAst fuelDefault (" ".intercalate (rest.drop k)) (rest.take k))
+  | "runfilesast", args => some (runFilesAst fuelDefault args)
   | "spec:runast", n :: rest =>
     let k := n.toNat!
     some (specRunAst fuelDefault (" ".intercalate (rest.drop k)) (rest.take k))
